@@ -28,6 +28,8 @@
 (*     "gap"    timer armed with the raw reply interval (<= 0 included)    *)
 (*     "tier"   CompareAndSwap(index, index+1) with an unwrapped index     *)
 (*     "cancel" announce() drops ANY context.Canceled, also a foreign one  *)
+(*     "add"    the tier advances on EVERY failure (no compare-and-swap with *)
+(*              the index that was used): overlapping failures skip members *)
 (*     "stopmember" "stopped" goes to the tier's current member, accepted  *)
 (*              or not (no repair proposed; recorded as a finding)         *)
 (*                                                                         *)
@@ -83,6 +85,9 @@ MonA0(c) ==
       acc |-> [k \in KK |-> FALSE],     \* k accepted (answered ok to) an earlier announce
       cnt |-> [k \in KK |-> 0],         \* failed announces elsewhere since k is up and unvisited
       short |-> [k \in KK |-> 0],       \* consecutive too-short gaps seen at k
+      sdone |-> [k \in KK |-> FALSE],   \* "stopped" already seen at k since the last stop
+      rdue |-> -1,                      \* deadline for the retransmission of a datagram the tracker ignored
+      tp |-> 0,                         \* shadow of the tier pointer (position in the tier's member order)
       bound |-> c.cmin,                 \* min(client minimum, positive tracker intervals so far)
       due |-> -1, nfail |-> 0 ]
 
@@ -159,6 +164,7 @@ EvViol(m, k, e, gap, cin) ==
     \* ("completed" may be the first one to ARRIVE: the download can finish while "started" is still on its way, and
     \*  the announcer then cancels that request in favour of "completed")
     ELSE IF m.first /\ e.ev # "started" /\ ~(e.ev = "completed" /\ cin) THEN "C15.ev.started"
+    ELSE IF ~m.first /\ e.ev = "started" THEN "C15.ev.started.repeat"      \* at most one "started" per tracker per run
     ELSE IF e.ev = "completed" /\ m.csent THEN "C15.ev.completed.twice"
     ELSE IF e.ev = "completed" /\ ~cin THEN "C15.ev.completed.notinrun"
     ELSE IF ShortGap(m, k, gap) /\ m.short[k] + 1 >= cfg.gapk THEN "C15.gap"
@@ -224,9 +230,12 @@ ResUpd(M, a, k, res, iv, miv, now, dur) ==
 StoppedViol(M, a, k, t, e) ==
     LET m == M[a]  s == mt[t] IN
          <<IdViol(t, e),
+            IF m.sdone[k] THEN "C15.ev.stopped.twice" ELSE "",
             IF ~m.acc[k] THEN (IF \E j \in Ks(a) : m.acc[j] THEN "C15.ev.stopped.member" ELSE "C15.ev.stopped.unaccepted") ELSE "",
             IF s.exp /\ (e.up # s.eup \/ e.down # s.edown \/ e.left # s.eleft) THEN "C15.cnt.stats" ELSE "",
             IF e.left < 0 \/ e.left > cfg.tor[t].left0 \/ (s.cdone /\ e.left # 0) THEN "C15.cnt.leftdone" ELSE "">>
+
+StoppedF(M, a, k) == [M EXCEPT ![a] = [@ EXCEPT !.sdone = [@ EXCEPT ![k] = TRUE]]]
 
 StartF(M, t, now) ==
     [a \in A |-> IF a \in AnnOf(t)
@@ -241,7 +250,8 @@ SharesDest(a, t) == \E k \in Ks(a), a2 \in AnnOf(t) : \E k2 \in Ks(a2) :
                        cfg.trk[k].udp /\ cfg.trk[k2].udp /\ cfg.trk[k].dest = cfg.trk[k2].dest
 StopF(M, t, now) ==
     [a \in A |-> IF a \in AnnOf(t)
-       THEN [M[a] EXCEPT !.run = FALSE, !.evs = TRUE, !.kev = [k \in K |-> TRUE], !.short = [k \in K |-> 0], !.due = -1]
+       THEN [M[a] EXCEPT !.run = FALSE, !.evs = TRUE, !.kev = [k \in K |-> TRUE], !.short = [k \in K |-> 0], !.due = -1,
+                         !.rdue = -1, !.sdone = [k \in K |-> FALSE]]
        ELSE IF M[a].run /\ M[a].due >= 0 /\ SharesDest(a, t)
        THEN [M[a] EXCEPT !.due = Max2(@, now + BoHi(M[a].nfail + 1) + cfg.lat + cfg.slk),
                          !.nfail = Min2(@ + 1, 8), !.evs = TRUE]
@@ -256,7 +266,26 @@ CompleteT(MT, t) == [MT EXCEPT ![t] = [@ EXCEPT !.cdone = TRUE, !.cinrun = @ \/ 
 
 UpF(M, k) == [a \in A |-> [M[a] EXCEPT !.cnt = [@ EXCEPT ![k] = 0]]]
 
-ClearDue(M, now) == [a \in A |-> IF M[a].run /\ M[a].due >= 0 /\ now > M[a].due THEN [M[a] EXCEPT !.due = -1] ELSE M[a]]
+\* @obligation C15.id.retransmit  every datagram that reaches a UDP tracker, retransmissions included, carries the identity of
+\*   the torrent that has that transaction outstanding: a datagram with a known transaction id is byte-identical to the first
+\*   one (same), is not sent for a transaction answered long ago (late), and a datagram the tracker ignored is retransmitted
+RtxViol(same, late) == <<IF ~same THEN "C15.id.retransmit" ELSE "", IF late THEN "C15.id.retransmit.stale" ELSE "">>
+RDueViol(M, now) == IF \E a \in A : M[a].run /\ M[a].rdue >= 0 /\ now > M[a].rdue THEN "C15.id.retransmit.lost" ELSE ""
+RDueSet(M, a, d) == [M EXCEPT ![a] = [@ EXCEPT !.rdue = d]]
+
+\* @obligation C16.tier.conc  concurrent announces on one tier: every announce goes to the member at the tier pointer, and the
+\*   pointer moves by exactly one member when an announce that used the CURRENT member fails (a failure of an announce that
+\*   used an older member moves nothing): the member after a failed one is tried before the failed one is tried again,
+\*   however many overlapping announces failed on it.  ord = member order of the tier, li = position the announce used.
+PosIn(ord, k) == (CHOOSE i \in 1 .. Len(ord) : ord[i] = k) - 1
+TLoadViol(m, ord, k) == IF ord[m.tp + 1] = k THEN "" ELSE "C16.tier.conc"
+TLoadF(M, a, ord, k) == [M EXCEPT ![a] = [@ EXCEPT !.tp = PosIn(ord, k)]]          \* follow the code after a report
+TRetF(M, a, ord, li, ok) == [M EXCEPT ![a] = [@ EXCEPT !.tp = IF ~ok /\ li = @ THEN (@ + 1) % Len(ord) ELSE @]]
+TNewF(M, a) == [M EXCEPT ![a] = [@ EXCEPT !.tp = 0]]
+Overlap(M, a) == [M EXCEPT ![a] = [@ EXCEPT !.evs = TRUE]]      \* an overlapping announce ended: the sequential rules pause
+
+ClearDue(M, now) == [a \in A |-> [M[a] EXCEPT !.due = IF M[a].run /\ @ >= 0 /\ now > @ THEN -1 ELSE @,
+                                               !.rdue = IF M[a].run /\ @ >= 0 /\ now > @ THEN -1 ELSE @]]
 
 -----------------------------------------------------------------------------
 (*                               MACHINE                                    *)
@@ -272,7 +301,8 @@ NoConn == [st |-> "none", owner |-> 0]
 Load(t) == IF idx[t] >= NMem(t) THEN 0 ELSE idx[t]              \* tier.go loadIndex
 Cur(t)  == cfg.ann[t].ks[Load(t) + 1]
 \* tier.go Announce: on error CompareAndSwap(index, index+1) with the LOADED index
-Cas(ix, t, li) == IF ix[t] # li THEN ix
+Cas(ix, t, li) == IF Asis("add") THEN [ix EXCEPT ![t] = (@ + 1) % NMem(t)]       \* unconditional advance (seeded fault)
+                  ELSE IF ix[t] # li THEN ix
                   ELSE [ix EXCEPT ![t] = IF Asis("tier") THEN li + 1 ELSE (li + 1) % NMem(t)]
 
 \* periodic.go getNextInterval (+ the clamp of the repaired design)
@@ -286,14 +316,12 @@ EvOf(t, ev) == [ev |-> ev, ih |-> cfg.tor[t].ih, pid |-> cfg.tor[t].pid, port |-
 \* requests of torrent t are cancelled (announcer closed, or "completed" while contacting):
 \* the cancelled Announce returns an error -> tier CAS; a UDP connect owned by t is aborted and the
 \* requests of OTHER torrents waiting for it receive context.Canceled (transport.go connectDone branch)
+LiveRq(r) == r.ph \in {"conn", "sent", "cerr"}
 CancelRq(t) ==
-    LET mine == {r \in rq : r.t = t}
-        aborted == {k \in K : uc[k].st = "connecting" /\ uc[k].owner = t}
-    IN {IF r.k \in aborted /\ r.ph = "conn" THEN [r EXCEPT !.ph = "cerr", !.err = "canceled"] ELSE r : r \in rq \ mine}
+    LET aborted == {k \in K : uc[k].st = "connecting" /\ uc[k].owner = t}
+    IN {IF r.t = t /\ LiveRq(r) THEN [r EXCEPT !.ph = "zombie"]      \* still inside Tier.Announce: returns an error later
+        ELSE IF r.k \in aborted /\ r.ph = "conn" THEN [r EXCEPT !.ph = "cerr", !.err = "canceled"] ELSE r : r \in rq}
 CancelUc(t) == [k \in K |-> IF uc[k].st = "connecting" /\ uc[k].owner = t THEN NoConn ELSE uc[k]]
-RECURSIVE CasAll(_, _, _)
-CasAll(ix, t, rs) == IF rs = {} THEN ix ELSE LET r == CHOOSE r \in rs : TRUE IN CasAll(Cas(ix, t, r.li), t, rs \ {r})
-CancelIdx(t) == CasAll(idx, t, {r \in rq : r.t = t})
 
 \* doAnnounce: a new request goes to the current member (rq0/uc0/ix0 = state after a possible cancel)
 SendRq(t, ev, rq0, uc0, ix0) ==
@@ -309,9 +337,10 @@ SendRq(t, ev, rq0, uc0, ix0) ==
 Observe(t, ev, ix0, gap, M, MT) ==
     LET li == IF ix0[t] >= NMem(t) THEN 0 ELSE ix0[t]
         k == cfg.ann[t].ks[li + 1]
-        v == First(<<EvViol(M[t], k, EvOf(t, ev), gap, MT[t].cinrun), TierViol(M[t], t, k, 0), ReachViol(M[t], t, k, 0)>>)
+        v == First(<<EvViol(M[t], k, EvOf(t, ev), gap, MT[t].cinrun), TierViol(M[t], t, k, 0), ReachViol(M[t], t, k, 0),
+                     TLoadViol(M[t], cfg.ann[t].ks, k)>>)
     IN /\ viol' = IF viol # "" THEN viol ELSE v
-       /\ mon' = AnnUpdF(M, t, k, ev, 0, gap)
+       /\ mon' = TLoadF(AnnUpdF(M, t, k, ev, 0, gap), t, cfg.ann[t].ks, k)
        /\ mt' = MT
 
 Start(t) ==                                       \* torrent.start -> startAnnouncers -> Run: doAnnounce(started)
@@ -351,18 +380,18 @@ AnnComplete(t) ==                                 \* case <-a.completedC
     /\ tor[t].run /\ tor[t].done /\ an[t].carm
     /\ an' = [an EXCEPT ![t].carm = FALSE, ![t].st = "contacting"]
     /\ IF an[t].st = "contacting"
-       THEN SendRq(t, "completed", CancelRq(t), CancelUc(t), CancelIdx(t))
+       THEN SendRq(t, "completed", CancelRq(t), CancelUc(t), idx)
        ELSE SendRq(t, "completed", rq, uc, idx)
-    /\ Observe(t, "completed", IF an[t].st = "contacting" THEN CancelIdx(t) ELSE idx, 0, EventF(mon, t), mt)
+    /\ Observe(t, "completed", idx, 0, EventF(mon, t), mt)
     /\ UNCHANGED <<cfg, mk, tor, up>>
 
 Stop(t) ==                                        \* torrent.stop: close announcers, "stopped" iff HasAnnounced
     /\ tor[t].run
     /\ tor' = [tor EXCEPT ![t].run = FALSE]
     /\ an' = [an EXCEPT ![t] = An0]
-    /\ rq' = CancelRq(t) /\ uc' = CancelUc(t) /\ idx' = CancelIdx(t)
-    /\ LET ix == CancelIdx(t)
-           cur == cfg.ann[t].ks[(IF ix[t] >= NMem(t) THEN 0 ELSE ix[t]) + 1]
+    /\ uc' = CancelUc(t) /\ idx' = idx
+    /\ LET li == Load(t)
+           cur == Cur(t)
            m == StopF(mon, t, 0)[t]
            \* stop.go announces through the Tier, i.e. to its CURRENT member ("stopmember": even if that
            \* member never accepted anything); the repaired design picks a member that did
@@ -372,8 +401,21 @@ Stop(t) ==                                        \* torrent.stop: close announc
                 ELSE IF \E j \in Ks(t) : m.acc[j] THEN "C15.ev.stopped.member" ELSE "C15.ev.stopped.unaccepted"
        IN /\ mon' = StopF(mon, t, 0)
           /\ viol' = IF viol # "" THEN viol ELSE v
+          \* the StopAnnouncer's request runs concurrently with whatever comes next (e.g. the announce of a restart)
+          /\ rq' = IF an[t].has
+                   THEN CancelRq(t) \cup {[t |-> t, k |-> cur, li |-> li, ev |-> "stopped", ph |-> "stop", err |-> ""]}
+                   ELSE CancelRq(t)
     /\ mt' = StopT(mt, t)
     /\ UNCHANGED <<cfg, mk, up>>
+
+\* a cancelled announce (or the "stopped" one) comes back from Tier.Announce: error -> the tier's advance rule applies
+SideEnd(r) ==
+    /\ r \in rq /\ r.ph \in {"zombie", "stop"}
+    /\ rq' = rq \ {r}
+    /\ LET ok == r.ph = "stop" /\ up[r.k] IN
+       /\ idx' = IF ok THEN idx ELSE Cas(idx, r.t, r.li)
+       /\ mon' = Overlap(TRetF(mon, r.t, cfg.ann[r.t].ks, r.li, ok), r.t)
+    /\ UNCHANGED <<cfg, mt, mk, viol, tor, an, up, uc>>
 
 \* result handling of Run: case resp := <-responseC / case err := <-errC
 Okd(x, iv, miv) == LET y == [x EXCEPT !.st = "working", !.iv = iv, !.miv = IF miv > 0 THEN miv ELSE @, !.has = TRUE]
@@ -386,10 +428,10 @@ Reply(r) ==                                       \* the tracker answers a reque
     /\ IF up[r.k]
        THEN \E iv \in IVals, miv \in IVals :
               /\ an' = [an EXCEPT ![r.t] = Okd(@, iv, miv)]
-              /\ mon' = ResUpd(mon, r.t, r.k, "ok", iv, miv, 0, 0)
+              /\ mon' = TRetF(ResUpd(mon, r.t, r.k, "ok", iv, miv, 0, 0), r.t, cfg.ann[r.t].ks, r.li, TRUE)
               /\ idx' = idx
        ELSE /\ an' = [an EXCEPT ![r.t] = Failed(@)]     \* failure reason / timeout / undecodable reply: all take errC
-            /\ mon' = ResUpd(mon, r.t, r.k, "fail", 0, 0, 0, 0)
+            /\ mon' = TRetF(ResUpd(mon, r.t, r.k, "fail", 0, 0, 0, 0), r.t, cfg.ann[r.t].ks, r.li, FALSE)
             /\ idx' = Cas(idx, r.t, r.li)
     /\ UNCHANGED <<cfg, mt, mk, viol, tor, up, uc>>
 
@@ -412,9 +454,10 @@ DeliverErr(r) ==                                  \* a waiting request is told t
     /\ rq' = rq \ {r}
     /\ idx' = Cas(idx, r.t, r.li)
     /\ IF r.err = "canceled" /\ Asis("cancel")
-       THEN UNCHANGED <<an, mon>>                 \* announce.go: errors.Is(err, context.Canceled) -> return
+       THEN /\ an' = an                          \* announce.go: errors.Is(err, context.Canceled) -> return
+            /\ mon' = TRetF(mon, r.t, cfg.ann[r.t].ks, r.li, FALSE)
        ELSE /\ an' = [an EXCEPT ![r.t] = Failed(@)]
-            /\ mon' = ResUpd(mon, r.t, r.k, "fail", 0, 0, 0, 0)
+            /\ mon' = TRetF(ResUpd(mon, r.t, r.k, "fail", 0, 0, 0, 0), r.t, cfg.ann[r.t].ks, r.li, FALSE)
     /\ UNCHANGED <<cfg, mt, mk, viol, tor, up, uc>>
 
 Flip(k) ==                                        \* environment: a tracker starts / stops answering
@@ -431,11 +474,11 @@ Emits(t) == Start(t) \/ FireSend(t) \/ AnnComplete(t)
 NoViolation == viol = ""
 
 \* no announce is lost while the torrent runs: a contacting announcer always has a request under way
-NoLostAnnounce == \A t \in T : (tor[t].run /\ an[t].st = "contacting") => \E r \in rq : r.t = t
+NoLostAnnounce == \A t \in T : (tor[t].run /\ an[t].st = "contacting") => \E r \in rq : r.t = t /\ LiveRq(r)
 \* an announcer that is not contacting has its timer armed (so it announces again)
 TimerArmed == \A t \in T : (tor[t].run /\ an[t].st \in {"working", "notworking"}) => an[t].tmr
 \* the tier can always advance: the stored index is a member position
 TierIndexOK == \A t \in T : idx[t] \in 0 .. (NMem(t) - 1)
 \* at most one live request per announcer
-OneRequest == \A t \in T : Cardinality({r \in rq : r.t = t}) <= 1
+OneRequest == \A t \in T : Cardinality({r \in rq : r.t = t /\ LiveRq(r)}) <= 1
 =============================================================================
